@@ -57,6 +57,7 @@ class Tracer:
         self.x_done = set()
         self.rounds = {}      # tid -> list of round dicts
         self.inside = set()   # tids between got and rel
+        self.waiting = set()  # tids between want and got
         self.holder = None    # harness' own view of the lock
         self.worker_tids = set()
         self.next_tid = 1
@@ -106,8 +107,23 @@ class Tracer:
         n = self.count[i] = self.count.get(i, 0) + 1
         if self.cancel_at == (i, n):
             self.cancel_req.add(i)
-            asyncio.get_event_loop().call_soon(self.tasks[i].cancel)
+            asyncio.get_event_loop().call_soon(self.cancel_task, self.tasks[i])
         return i
+
+    def cancel_task(self, task):
+        """Task.cancel().  A task blocked in lock.acquire() is out of the queue from this moment on as far as the lock is concerned
+        (its waiter future is cancelled: release() and the fast path of acquire() skip it), although the task itself
+        sees the CancelledError only at its next step - so that is where the cancellation is delivered."""
+        i = self.ids.get(task)
+        if i is not None and i in self.waiting and not task.done():
+            self.note_cancelled_waiter(i)
+        return task.cancel()
+
+    def note_cancelled_waiter(self, i):
+        if i not in self.x_done:
+            self.events.append(("unwait", i))
+            self.waiting.discard(i)
+            self.delivered(i)
 
     def old(self, kind):
         i = self.tid()
@@ -137,17 +153,19 @@ def make_lock(tr):
             tr.enter("want")
             tr.old("want")
             tr.step("want")
+            i = tr.tid()
+            tr.waiting.add(i)
             try:
                 r = await super().acquire()
             except asyncio.CancelledError:
-                tr.old("unwait")
-                i = tr.tid()
-                if i is not None:
+                if i is not None and i not in tr.x_done:
+                    tr.old("unwait")
                     tr.delivered(i)
+                tr.waiting.discard(i)
                 raise
+            tr.waiting.discard(i)
             tr.old("got")
             tr.step("got")
-            i = tr.tid()
             tr.inside.add(i)
             tr.holder = i
             return r
@@ -457,6 +475,8 @@ async def scenario(spec, cancel_at):
         w = tr.ids.get(ecu.tester_present_task, 0)
         r = tr.begin_round(i, ("Z", w))
         tr.step(f"stop{w}")
+        if w in tr.waiting:  # cancel() is the next thing stop_cyclic_tester_present() does, without suspending
+            tr.note_cancelled_waiter(w)
         await ecu.stop_cyclic_tester_present()
         tr.step(f"join{w}")
         r["complete"] = True
@@ -480,17 +500,17 @@ async def scenario(spec, cancel_at):
         done, pending = await asyncio.wait(tasks, timeout=120) if tasks else (set(), set())
         stuck = len(pending)
         for t in pending:
-            t.cancel()
+            tr.cancel_task(t)
         callers_done.set()
         if ctl is not None:
             d2, p2 = await asyncio.wait([ctl], timeout=30)
             if p2:
                 stuck += 1
-                ctl.cancel()
+                tr.cancel_task(ctl)
             # a worker that outlives its controller (controller cancelled by the harness) is stopped here
             wt = ecu.tester_present_task
             if wt is not None and not wt.done():
-                wt.cancel()
+                tr.cancel_task(wt)
                 await asyncio.wait([wt], timeout=5)
         await orig_sleep(0.01)
     finally:
